@@ -14,6 +14,7 @@ import (
 	"mime"
 	"strconv"
 	"strings"
+	"sync/atomic"
 	"time"
 
 	"github.com/la5nta/wl2k-go/transport"
@@ -453,6 +454,9 @@ func (s *Session) writeCompressed(rw io.ReadWriter, p *Proposal) (err error) {
 
 	buffer := bytes.NewBuffer(p.compressedData[p.offset:])
 
+	// Number of bytes not yet handed to the transport. Shared with the status goroutine.
+	remaining := int64(buffer.Len())
+
 	// Update Status of message transfer every 250ms
 	statusTicker := time.NewTicker(250 * time.Millisecond)
 	statusDone := make(chan struct{})
@@ -460,7 +464,7 @@ func (s *Session) writeCompressed(rw io.ReadWriter, p *Proposal) (err error) {
 		for {
 			select {
 			case <-statusTicker.C:
-				if s.statusUpdater == nil || buffer == nil {
+				if s.statusUpdater == nil {
 					continue
 				}
 
@@ -470,7 +474,7 @@ func (s *Session) writeCompressed(rw io.ReadWriter, p *Proposal) (err error) {
 					txBufLen = b.TxBufferLen()
 				}
 
-				transferred := p.compressedSize - buffer.Len() - txBufLen
+				transferred := p.compressedSize - int(atomic.LoadInt64(&remaining)) - txBufLen
 				if transferred < 0 {
 					transferred = 0
 				}
@@ -486,7 +490,7 @@ func (s *Session) writeCompressed(rw io.ReadWriter, p *Proposal) (err error) {
 				if s.statusUpdater != nil {
 					s.statusUpdater.UpdateStatus(Status{
 						Sending:          p,
-						BytesTransferred: p.compressedSize - buffer.Len(),
+						BytesTransferred: p.compressedSize - int(atomic.LoadInt64(&remaining)),
 						BytesTotal:       p.compressedSize,
 						Done:             true,
 					})
@@ -514,6 +518,7 @@ func (s *Session) writeCompressed(rw io.ReadWriter, p *Proposal) (err error) {
 				return err
 			}
 			checksum += int64(c)
+			atomic.AddInt64(&remaining, -1)
 		}
 
 		if err = writer.Flush(); err != nil {
@@ -602,6 +607,7 @@ func (s *Session) readCompressed(rw io.ReadWriter, p *Proposal) (err error) {
 		s.log.Println("GZIP_EXPERIMENT:", "Receiving gzip compressed message.")
 	}
 
+	var received int64 // Number of bytes received. Shared with the status goroutine.
 	statusUpdate := make(chan struct{})
 	go func() {
 		for {
@@ -609,7 +615,7 @@ func (s *Session) readCompressed(rw io.ReadWriter, p *Proposal) (err error) {
 			if s.statusUpdater != nil {
 				s.statusUpdater.UpdateStatus(Status{
 					Receiving:        p,
-					BytesTransferred: buf.Len(),
+					BytesTransferred: int(atomic.LoadInt64(&received)),
 					BytesTotal:       p.compressedSize,
 					Done:             !ok,
 				})
@@ -647,6 +653,7 @@ func (s *Session) readCompressed(rw io.ReadWriter, p *Proposal) (err error) {
 					return
 				}
 				buf.WriteByte(c)
+				atomic.AddInt64(&received, 1)
 				ourChecksum = (ourChecksum + int(c)) % 256
 				if i%10 == 0 {
 					updateStatus()
